@@ -2,7 +2,7 @@ SPECIFICATION Spec
 CONSTANTS
   Families <- AllFamilies
   ModeCounts = {0, 1, 3}
-  WidthOpts = {"none", "given"}
+  WidthOpts = {"none", "given", "zero"}
   ThresholdRules <- TwoRules
 INVARIANT ClassAsRequested
 INVARIANT ModesAsRequested
